@@ -12,6 +12,7 @@ package main
 
 import (
 	"context"
+	"errors"
 	"flag"
 	"fmt"
 	"os"
@@ -38,7 +39,19 @@ type op struct {
 	a, b  int64
 	fires []int
 	id    int // creating ops: the index of the node they create
+	// stab: the sentinels whose predicate returns an error / panics in this pass (disjoint)
+	errs, panics []int
 }
+
+func nlist(xs []int) string {
+	parts := make([]string, len(xs))
+	for i, x := range xs {
+		parts[i] = fmt.Sprintf("n%d", x)
+	}
+	return "[" + strings.Join(parts, ",") + "]"
+}
+
+func (o op) faulty() bool { return len(o.errs)+len(o.panics) > 0 }
 
 func (o op) String() string {
 	switch o.kind {
@@ -57,11 +70,10 @@ func (o op) String() string {
 	case "unwatch":
 		return fmt.Sprintf("n%d.Unwatch()", o.n)
 	}
-	parts := make([]string, len(o.fires))
-	for i, x := range o.fires {
-		parts[i] = fmt.Sprintf("n%d", x)
+	if o.faulty() {
+		return "stabilize(fires=" + nlist(o.fires) + ", errs=" + nlist(o.errs) + ", panics=" + nlist(o.panics) + ")"
 	}
-	return "stabilize(fires=[" + strings.Join(parts, ",") + "])"
+	return "stabilize(fires=" + nlist(o.fires) + ")"
 }
 
 func (o op) coq() string {
@@ -93,7 +105,9 @@ func replay(ops []op, upto int) map[string]any {
 		calls = append(calls, o.String())
 	}
 	return map[string]any{"calls": calls,
-		"note": "nodes are numbered in creation order; a sentinel's predicate returns true in a pass exactly when the sentinel is listed in fires"}
+		"note": "nodes are numbered in creation order; a sentinel's predicate returns true in a pass exactly when the sentinel is listed in fires; " +
+			"a sentinel listed in errs returns (false, error) in that pass and one listed in panics panics (SentinelContext); " +
+			"Unwatch of a sentinel that is already unwatched is a second Unwatch"}
 }
 
 type nodeObs struct {
@@ -131,6 +145,18 @@ type stepObs struct {
 	nodes []nodeObs
 	runs  []runRec
 	evals []int
+	// a pass that returned the error of a failing predicate: the nodes stamped with the
+	// number of the pass (other than the failing ones) and the predicates that failed
+	stopped               bool
+	ran, failed, panicked []int
+}
+
+// opCoq is the op as this run saw it: a pass that stopped is an OStabilizeStopped.
+func (s stepObs) opCoq() string {
+	if s.stopped {
+		return fmt.Sprintf("OStabilizeStopped %s %s %s %s", hx.NatList(s.op.fires), hx.NatList(s.ran), hx.NatList(s.failed), hx.NatList(s.panicked))
+	}
+	return s.op.coq()
 }
 
 func (s stepObs) obsCoq() string {
@@ -145,7 +171,7 @@ func (s stepObs) obsCoq() string {
 	return fmt.Sprintf("Obs [%s] [%s] %s", strings.Join(parts, ";\n      "), strings.Join(runs, "; "), hx.NatList(s.evals))
 }
 
-func (s stepObs) coq() string { return fmt.Sprintf("(%s,\n    %s)", s.op.coq(), s.obsCoq()) }
+func (s stepObs) coq() string { return fmt.Sprintf("(%s,\n    %s)", s.opCoq(), s.obsCoq()) }
 
 // rt is a live node with its handles.
 type rt struct {
@@ -168,6 +194,27 @@ type violation struct {
 
 type events struct {
 	fireRegMap, reentry, sentOnReg, unwatch, negHeight, consecutive, fireUnregMap, fireVar int
+
+	unwatchTwice, stopped, stoppedErr, stoppedPanic, stoppedMulti, retryAfterStopped, stoppedChain int
+}
+
+const (
+	modeOK = iota
+	modeErr
+	modePanic
+)
+
+// escaped is a panic that came out of Stabilize / ParallelStabilize itself.
+type escaped struct{ rec any }
+
+func (e escaped) Error() string { return fmt.Sprintf("panic: %v", e.rec) }
+
+// propertyOf is the claim a violation class belongs to.
+func propertyOf(class string) string {
+	if class == "failed-pass-sentinel-not-requeued" {
+		return "C07"
+	}
+	return "C03"
 }
 
 func hasID(nodes []incr.INode, id incr.Identifier) bool {
@@ -194,6 +241,10 @@ func runCase(ops []op, parallel bool) (trace []stepObs, viol *violation, ev even
 		runs     []runRec
 		evals    []int
 		fireFlag = map[int]*bool{}
+		mode     = map[int]*int{}
+		// the predicates that returned an error / panicked in the current pass
+		failedInvoked, panickedInvoked []int
+		lastStopped                    bool
 	)
 	fail := func(i int, class, what string) {
 		if viol == nil {
@@ -253,13 +304,27 @@ func runCase(ops []op, parallel bool) (trace []stepObs, viol *violation, ev even
 				if regBefore[o.n] {
 					ev.sentOnReg++
 				}
-				// the predicate reads the flag under the same mutex as the logs
-				s := incr.Sentinel(g, func() bool {
+				md := new(int)
+				mode[idx] = md
+				// the predicate reads the flag and its mode under the same mutex as the logs
+				s := incr.SentinelContext(g, func(context.Context) (bool, error) {
 					mu.Lock()
 					evals = append(evals, idx)
-					f := *ff
+					f, m := *ff, *md
+					switch m {
+					case modeErr:
+						failedInvoked = append(failedInvoked, idx)
+					case modePanic:
+						panickedInvoked = append(panickedInvoked, idx)
+					}
 					mu.Unlock()
-					return f
+					switch m {
+					case modeErr:
+						return false, fmt.Errorf("sentinel n%d fails", idx)
+					case modePanic:
+						panic(fmt.Sprintf("sentinel n%d panics", idx))
+					}
+					return f, nil
 				}, rts[o.n].inode)
 				rts = append(rts, &rt{kind: "sent", inode: s, s: s, input: o.n})
 			case "observe":
@@ -278,6 +343,17 @@ func runCase(ops []op, parallel bool) (trace []stepObs, viol *violation, ev even
 					r.unwatched = true
 					ev.unwatch++
 					r.s.Unwatch(ctx)
+				} else {
+					ev.unwatchTwice++
+					func() {
+						defer func() {
+							if rec := recover(); rec != nil {
+								panicked = true
+								fail(i, "unwatch-twice-panic", fmt.Sprintf("%v on a sentinel that is already unwatched panicked: %v", o, rec))
+							}
+						}()
+						r.s.Unwatch(ctx)
+					}()
 				}
 			case "stab":
 				if prevStab {
@@ -290,8 +366,23 @@ func runCase(ops []op, parallel bool) (trace []stepObs, viol *violation, ev even
 				for _, x := range o.fires {
 					*fireFlag[x] = true
 				}
+				for _, m := range mode {
+					*m = modeOK
+				}
+				for _, x := range o.errs {
+					*mode[x] = modeErr
+				}
+				for _, x := range o.panics {
+					*mode[x] = modePanic
+				}
 				runs, evals = nil, nil
+				failedInvoked, panickedInvoked = nil, nil
 				mu.Unlock()
+				passNum := incr.ExpertGraph(g).StabilizationNum()
+				rAtBefore := make([]uint64, len(rts))
+				for k, r := range rts {
+					rAtBefore[k] = incr.ExpertNode(r.inode).RecomputedAt()
+				}
 				type pend struct {
 					sent, watched int
 					reg, fires    bool
@@ -306,7 +397,7 @@ func runCase(ops []op, parallel bool) (trace []stepObs, viol *violation, ev even
 				go func() {
 					defer func() {
 						if rec := recover(); rec != nil {
-							done <- fmt.Errorf("panic: %v", rec)
+							done <- escaped{rec}
 						}
 					}()
 					if parallel {
@@ -323,19 +414,29 @@ func runCase(ops []op, parallel bool) (trace []stepObs, viol *violation, ev even
 					stop = true
 					return
 				}
-				if err != nil {
-					if strings.HasPrefix(err.Error(), "panic: ") {
-						panicked = true
-						fail(i, "panic-stab", fmt.Sprintf("%v panicked: %v", o, err))
-					} else {
-						fail(i, "pass-error", fmt.Sprintf("%v returned %v", o, err))
-					}
-					return
-				}
 				mu.Lock()
 				so.runs = append([]runRec(nil), runs...)
 				so.evals = append([]int(nil), evals...)
+				failed := append([]int(nil), failedInvoked...)
+				panicd := append([]int(nil), panickedInvoked...)
 				mu.Unlock()
+				sort.Ints(failed)
+				sort.Ints(panicd)
+				if err != nil {
+					var esc escaped
+					switch {
+					case errors.As(err, &esc):
+						panicked = true
+						fail(i, "panic-stab", fmt.Sprintf("%v panicked: %v", o, err))
+						return
+					case len(failed)+len(panicd) == 0:
+						fail(i, "pass-error", fmt.Sprintf("%v returned %v", o, err))
+						return
+					}
+				} else if len(failed)+len(panicd) > 0 {
+					fail(i, "fault-swallowed", fmt.Sprintf("%v returned nil although the predicates of %s returned an error and those of %s panicked in it",
+						o, nlist(failed), nlist(panicd)))
+				}
 				sort.SliceStable(so.runs, func(x, y int) bool {
 					if so.runs[x].idx != so.runs[y].idx {
 						return so.runs[x].idx < so.runs[y].idx
@@ -343,6 +444,74 @@ func runCase(ops []op, parallel bool) (trace []stepObs, viol *violation, ev even
 					return so.runs[x].arg < so.runs[y].arg
 				})
 				sort.Ints(so.evals)
+				if err != nil {
+					// a pass stopped by a failing predicate
+					so.stopped, so.failed, so.panicked = true, failed, panicd
+					ev.stopped++
+					if len(failed) > 0 {
+						ev.stoppedErr++
+					}
+					if len(panicd) > 0 {
+						ev.stoppedPanic++
+					}
+					if len(failed)+len(panicd) > 1 {
+						ev.stoppedMulti++
+					}
+					lastStopped = true
+					faultyNow := map[int]bool{}
+					for _, x := range failed {
+						faultyNow[x] = true
+					}
+					for _, x := range panicd {
+						faultyNow[x] = true
+					}
+					for k, r := range rts {
+						if !faultyNow[k] && incr.ExpertNode(r.inode).RecomputedAt() == passNum {
+							so.ran = append(so.ran, k)
+						}
+					}
+					// Sentinels sit at height 0: under ParallelStabilize nothing above the failing block runs.
+					// Under Stabilize a single-input dependent is recomputed directly after its input
+					// (canRecomputeImmediately), ahead of what is still queued at height 0: a Map may run
+					// in a stopped pass, but only as part of such a chain -- its input was recomputed in
+					// this pass -- and it then carries this pass's stamp (it is listed in ran).
+					if len(so.runs) > 0 {
+						ev.stoppedChain++
+						if parallel {
+							fail(i, "stopped-pass-ran-above", fmt.Sprintf("%v returned %v, stopped by the predicates of %s (error) and %s (panic) at height 0, but Map functions ran in it: %v (node, argument)",
+								o, err, nlist(failed), nlist(panicd), so.runs))
+						}
+						for _, rr := range so.runs {
+							in := rts[rr.idx].input
+							if incr.ExpertNode(rts[rr.idx].inode).RecomputedAt() != passNum || incr.ExpertNode(rts[in].inode).RecomputedAt() != passNum {
+								fail(i, "stopped-pass-ran-unchained", fmt.Sprintf("%v returned %v, stopped at height 0, but Map n%d ran in it although its input n%d was not recomputed in this pass",
+									o, err, rr.idx, in))
+							}
+						}
+					}
+					for k, r := range rts {
+						if r.kind == "sent" && !r.unwatched && g.Has(rts[r.input].inode) && !incr.ExpertNode(r.inode).IsInRecomputeHeap() {
+							fail(i, "failed-pass-sentinel-not-requeued", fmt.Sprintf("after %v returned %v, sentinel n%d, which watches n%d (in the graph), is not in the recompute heap",
+								o, err, k, r.input))
+						}
+					}
+					for _, x := range failed {
+						if got := incr.ExpertNode(rts[x].inode).RecomputedAt(); got != rAtBefore[x] {
+							fail(i, "stamp-not-restored", fmt.Sprintf("the predicate of sentinel n%d returned an error in %v; its RecomputedAt was %d before the pass and is %d after it",
+								x, o, rAtBefore[x], got))
+						}
+					}
+					for _, x := range panicd {
+						if got := incr.ExpertNode(rts[x].inode).RecomputedAt(); got != 0 {
+							fail(i, "panic-stamp-not-zero", fmt.Sprintf("the predicate of sentinel n%d panicked in %v; its RecomputedAt is %d after the pass, not 0", x, o, got))
+						}
+					}
+					return
+				}
+				if lastStopped {
+					lastStopped = false
+					ev.retryAfterStopped++
+				}
 				runCount := map[int]int{}
 				for _, r := range so.runs {
 					runCount[r.idx]++
@@ -456,7 +625,10 @@ type gnode struct {
 	unwatched bool
 }
 
-type gen struct{ nodes []gnode }
+type gen struct {
+	nodes       []gnode
+	afterFaulty bool // the last pass generated had a failing predicate
+}
 
 func (g *gen) necessary(n int) bool {
 	if g.nodes[n].obs > 0 {
@@ -539,7 +711,51 @@ func genHistory(r *hx.Rand, length int) []op {
 				fires = append(fires, k)
 			}
 		}
-		add(op{kind: "stab", fires: fires})
+		var live []int
+		for k, n := range g.nodes {
+			if n.kind == "sent" && !n.unwatched {
+				live = append(live, k)
+			}
+		}
+		// a pass after a faulty one is mostly the fault-free retry
+		faulty := false
+		if g.afterFaulty {
+			faulty = r.Chance(1, 4)
+		} else {
+			faulty = r.Chance(1, 5)
+		}
+		var errs, panics []int
+		if faulty && len(live) > 0 {
+			cnt := 1
+			if r.Chance(1, 4) {
+				cnt = r.Range(2, 3)
+			}
+			pool := append([]int(nil), live...)
+			for ; cnt > 0 && len(pool) > 0; cnt-- {
+				// a sentinel on a node that is in the graph is reached by the pass
+				c := pickWeighted(r, pool, func(c int) int {
+					if g.necessary(g.nodes[c].input) {
+						return 6
+					}
+					return 1
+				})
+				for j, x := range pool {
+					if x == c {
+						pool = append(pool[:j], pool[j+1:]...)
+						break
+					}
+				}
+				if r.Chance(1, 2) {
+					errs = append(errs, c)
+				} else {
+					panics = append(panics, c)
+				}
+			}
+			sort.Ints(errs)
+			sort.Ints(panics)
+		}
+		g.afterFaulty = len(errs)+len(panics) > 0
+		add(op{kind: "stab", fires: fires, errs: errs, panics: panics})
 	}
 	for k := r.Range(1, 3); k > 0; k-- {
 		add(op{kind: "newvar", v: int64(r.Range(-5, 9))})
@@ -616,13 +832,21 @@ func genHistory(r *hx.Rand, length int) []op {
 			add(op{kind: "set", n: cands[r.Intn(len(cands))], v: int64(r.Range(-5, 9))})
 		case k < 18: // Unwatch 1
 			cands := sel(func(_ int, n gnode) bool { return n.kind == "sent" && !n.unwatched })
+			if dead := sel(func(_ int, n gnode) bool { return n.kind == "sent" && n.unwatched }); len(dead) > 0 && r.Chance(1, 4) {
+				add(op{kind: "unwatch", n: dead[r.Intn(len(dead))]}) // a second Unwatch
+				continue
+			}
 			if len(cands) == 0 {
 				continue
 			}
 			add(op{kind: "unwatch", n: cands[r.Intn(len(cands))]})
 		default: // Stabilize 5
 			stab()
-			if r.Chance(1, 4) {
+			if g.afterFaulty {
+				if r.Chance(1, 2) {
+					stab() // the retry follows at once
+				}
+			} else if r.Chance(1, 4) {
 				stab()
 			}
 		}
@@ -651,14 +875,16 @@ func sanitize(ops []op) []op {
 			o.id, o.n = len(g.nodes), in
 			g.nodes = append(g.nodes, gnode{kind: map[string]string{"newmap": "map", "newsent": "sent"}[o.kind], input: in})
 		case "stab":
-			var fires []int
-			for _, x := range o.fires {
-				if y, ok := remap[x]; ok && !g.nodes[y].unwatched {
-					fires = append(fires, y)
+			live := func(xs []int) (out []int) {
+				for _, x := range xs {
+					if y, ok := remap[x]; ok && !g.nodes[y].unwatched {
+						out = append(out, y)
+					}
 				}
+				sort.Ints(out)
+				return
 			}
-			sort.Ints(fires)
-			o.fires = fires
+			o.fires, o.errs, o.panics = live(o.fires), live(o.errs), live(o.panics)
 		default:
 			n, ok := remap[o.n]
 			if !ok {
@@ -674,10 +900,10 @@ func sanitize(ops []op) []op {
 				}
 				g.nodes[n].obs--
 			case "unwatch":
-				if g.nodes[n].unwatched {
+				if g.nodes[n].kind != "sent" {
 					continue
 				}
-				g.nodes[n].unwatched = true
+				g.nodes[n].unwatched = true // a second Unwatch of the same sentinel stays
 			}
 		}
 		out = append(out, o)
@@ -738,19 +964,27 @@ type outcome struct {
 	serial, par []stepObs
 	viol        *violation
 	mode        string // which run the violation belongs to: serial parallel both
-	ev          events
+	ev          events // of the Stabilize run
+	// stopped passes of the ParallelStabilize run, and those in which several predicates failed
+	// (Stabilize stops at the first one)
+	parStopped, parMulti int
 }
 
 func playBoth(ops []op) outcome {
 	var o outcome
 	var vs, vp *violation
+	var evp events
 	o.serial, vs, o.ev = runCase(ops, false)
-	o.par, vp, _ = runCase(ops, true)
+	o.par, vp, evp = runCase(ops, true)
+	o.parStopped, o.parMulti = evp.stopped, evp.stoppedMulti
 	switch {
 	case vs != nil:
 		o.viol, o.mode = vs, "Stabilize"
 	case vp != nil:
 		o.viol, o.mode = vp, "ParallelStabilize"
+	case o.ev.stopped+evp.stopped > 0:
+		// Stabilize stops at the first failing predicate it reaches, ParallelStabilize runs the
+		// whole block of height 0: after a pass that failed the two runs may differ
 	default:
 		if d := diverge(o.serial, o.par); d >= 0 {
 			what := fmt.Sprintf("after call %d the two stabilizers show different states", d)
@@ -795,6 +1029,9 @@ func show(k int, ops []op, o outcome) {
 			s := side.tr[i]
 			if c.kind == "stab" {
 				fmt.Printf("   %s: runs=%v evals=%v\n", side.name, s.runs, s.evals)
+				if s.stopped {
+					fmt.Printf("   %s: STOPPED  [%s]\n", side.name, s.opCoq())
+				}
 			}
 			for n, no := range s.nodes {
 				fmt.Printf("   %s: n%-2d %v\n", side.name, n, no)
@@ -858,6 +1095,14 @@ func main() {
 		rep.Histogram["unwatch"] += o.ev.unwatch
 		rep.Histogram["reg-negative-height"] += o.ev.negHeight
 		rep.Histogram["two-consecutive-stabilize"] += o.ev.consecutive
+		rep.Histogram["unwatch-twice"] += o.ev.unwatchTwice
+		rep.Histogram["stopped-pass"] += o.ev.stopped
+		rep.Histogram["stopped-pass-err"] += o.ev.stoppedErr
+		rep.Histogram["stopped-pass-panic"] += o.ev.stoppedPanic
+		rep.Histogram["stopped-pass-multi"] += o.ev.stoppedMulti + o.parMulti
+		rep.Histogram["retry-after-stopped"] += o.ev.retryAfterStopped
+		rep.Histogram["stopped-pass-with-direct-recompute-chain"] += o.ev.stoppedChain
+		rep.Histogram["stopped-pass-parallel"] += o.parStopped
 		if o.ev.fireRegMap > 0 {
 			var b strings.Builder
 			for _, s := range o.serial {
@@ -898,7 +1143,7 @@ func main() {
 				rp["stabilizer"] = mode
 				rp["history"] = k
 				rp["step"] = o.viol.at
-				rep.AddViolation(hx.Violation{Property: "C03", What: what, Key: key, Replay: rp})
+				rep.AddViolation(hx.Violation{Property: propertyOf(o.viol.class), What: what, Key: key, Replay: rp})
 			}
 		}
 	}
@@ -908,9 +1153,14 @@ func main() {
 	}
 	rep.Distinct = len(distinct)
 	rep.Rule = fmt.Sprintf("%d random histories of %d calls over at most %d nodes (vars, affine Maps in chains of depth <= %d, sentinels on vars and Maps, "+
-		"several sentinels per node): NewVar, NewMap, NewSentinel, Observe, Unobserve (often followed by a pass and Observe again), Var.Set, Unwatch, "+
-		"Stabilize with a random subset of the live sentinels firing; every history is played under Stabilize and, on a second graph with parallelism 4, "+
-		"under ParallelStabilize. Non-trivial = a history with a pass in which a sentinel fired on a Map that was in the graph; distinct by full recorded trace",
+		"several sentinels per node, all made with SentinelContext): NewVar, NewMap, NewSentinel, Observe, Unobserve (often followed by a pass and Observe again), Var.Set, "+
+		"Unwatch (about 1 in 4 on a sentinel that is already unwatched, which must be a no-op), "+
+		"Stabilize with a random subset of the live sentinels firing; in about 1 pass in 5 one predicate (1 time in 4 two or three) returns an error or panics, "+
+		"preferably of a sentinel whose watched node is in the graph, and the pass after such a pass is 3 times in 4 a fault-free retry; "+
+		"a pass that returns the error is recorded as OStabilizeStopped fires ran failed panicked (ran = the other nodes stamped with the number of the pass) and is checked for: "+
+		"no Map function ran, every live sentinel on a node in the graph is back in the recompute heap (C07), the stamp of an erroring sentinel is restored, that of a panicking one is 0; "+
+		"every history is played under Stabilize and, on a second graph with parallelism 4, "+
+		"under ParallelStabilize; the two runs are compared step by step only in histories without a stopped pass. Non-trivial = a history with a pass in which a sentinel fired on a Map that was in the graph; distinct by full recorded trace",
 		*count, *length, maxNodes, maxDepth)
 
 	if *coqOut != "" {
